@@ -115,8 +115,10 @@ def main(pid, tier, seed):
                     pc2 = ptq.load_pcfg(d, save_file=os.path.join(d, 'session.sav'), **flags)
                     r = session.run_session(pc2, session.new_save_config(), os.path.join(d, 'session.sav'), limit=N)
                     tid += 1
+                    noise = r.get('stdout_noise', '')
                     traces.append({'tid': tid, 'kind': 'limit', 'N': N, 'full': [expand.cps(s) for s in full],
-                                   'lines': [expand.cps(s) for s in r['lines']], 'hasout': False, 'stdout': []})
+                                   'lines': [expand.cps(s) for s in r['lines']], 'hasout': bool(noise),
+                                   'stdout': [expand.cps(x) for x in noise.split('\n')] if noise else []})
                     meta[tid] = {'ruleset': desc, 'flags': flags, 'N': N, 'via': 'CrackingSession.run'}
                 limit_jobs.append((d, desc, flags, full))
 
